@@ -46,9 +46,10 @@ func genC20Pure(t *simrt.Tape) c20Pure {
 	if t.Bool(1, 3) {
 		p.TrampErr = 1 + t.Choose(p.TrampN)
 	}
-	// a subset of the pattern kinds in a random order (0 kind-int, 1 sum type, 2 equal, 3 regex, 4 kind-string)
-	pool := []int{0, 1, 2, 3, 4}
-	k := 1 + t.Choose(5)
+	// a subset of the pattern kinds in a random order (0 kind-int, 1 sum type, 2 equal, 3 regex, 4 kind-string,
+	// 5 a regex rule that does not compile: it accepts nothing, every time it is consulted)
+	pool := []int{0, 1, 2, 3, 4, 5}
+	k := 1 + t.Choose(6)
 	for i := 0; i < k; i++ {
 		j := t.Choose(len(pool))
 		p.Patterns = append(p.Patterns, pool[j])
@@ -331,25 +332,25 @@ func (sc *c20Scenario) runPure(s *simrt.Sim, h *Hist) {
 		name string
 		v    interface{}
 		// which pattern kinds accept it (0 kind-int, 1 sum type, 2 equal(42), 3 regex ^ab+$, 4 kind-string); -1 = not asserted
-		acc [5]int
+		acc [6]int
 	}
 	st := c20T{A: 1}
 	var nilPtr *c20T
 	probes := []probe{
-		{"int 42", 42, [5]int{1, 0, 1, 0, 0}},
-		{"int 7", 7, [5]int{1, 0, 0, 0, 0}},
-		{"int64 42", int64(42), [5]int{0, 0, 0, 0, 0}},
-		{"string abb", "abb", [5]int{0, 0, 0, 1, 1}},
-		{"string xab", "xab", [5]int{0, 0, 0, 0, 1}},
-		{"string 42", "42", [5]int{0, 0, 0, 0, 1}},
-		{"nil", nil, [5]int{0, 1, 0, 0, 0}},
-		{"typed nil pointer", nilPtr, [5]int{0, -1, 0, 0, 0}},
-		{"typed nil *CompData (what NewCompData returns for mismatching arguments)", fpgo.NewCompData(fpgo.DefProduct(reflect.Int), "no"), [5]int{0, -1, 0, 0, 0}},
-		{"struct", st, [5]int{0, 0, 0, 0, 0}},
-		{"pointer to struct", &st, [5]int{0, 0, 0, 0, 0}},
-		{"slice", []int{1, 2}, [5]int{0, 0, 0, 0, 0}},
-		{"CompData(string,int)", fpgo.NewCompData(sum, "a", 1), [5]int{0, 1, 0, 0, 0}},
-		{"CompData(int) of another type", fpgo.NewCompData(fpgo.DefProduct(reflect.Int), 5), [5]int{0, 0, 0, 0, 0}},
+		{"int 42", 42, [6]int{1, 0, 1, 0, 0}},
+		{"int 7", 7, [6]int{1, 0, 0, 0, 0}},
+		{"int64 42", int64(42), [6]int{0, 0, 0, 0, 0}},
+		{"string abb", "abb", [6]int{0, 0, 0, 1, 1}},
+		{"string xab", "xab", [6]int{0, 0, 0, 0, 1}},
+		{"string 42", "42", [6]int{0, 0, 0, 0, 1}},
+		{"nil", nil, [6]int{0, 1, 0, 0, 0}},
+		{"typed nil pointer", nilPtr, [6]int{0, -1, 0, 0, 0}},
+		{"typed nil *CompData (what NewCompData returns for mismatching arguments)", fpgo.NewCompData(fpgo.DefProduct(reflect.Int), "no"), [6]int{0, -1, 0, 0, 0}},
+		{"struct", st, [6]int{0, 0, 0, 0, 0}},
+		{"pointer to struct", &st, [6]int{0, 0, 0, 0, 0}},
+		{"slice", []int{1, 2}, [6]int{0, 0, 0, 0, 0}},
+		{"CompData(string,int)", fpgo.NewCompData(sum, "a", 1), [6]int{0, 1, 0, 0, 0}},
+		{"CompData(int) of another type", fpgo.NewCompData(fpgo.DefProduct(reflect.Int), 5), [6]int{0, 0, 0, 0, 0}},
 	}
 	h.Do("main", "pattern-matching", p.Patterns, func() (interface{}, error) {
 		for _, pr := range probes {
@@ -370,11 +371,13 @@ func (sc *c20Scenario) runPure(s *simrt.Sim, h *Hist) {
 					return fpgo.InCaseOfRegex("^ab+$", eff)
 				case 4:
 					return fpgo.InCaseOfKind(reflect.String, eff)
+				case 5:
+					return fpgo.InCaseOfRegex("a(b", eff)
 				}
 				return fpgo.Otherwise(eff)
 			}
 			var pats []fpgo.Pattern
-			want := -1 // index into kinds of the first accepting pattern; 5 = Otherwise
+			want := -1 // index into kinds of the first accepting pattern; 9 = Otherwise
 			undecided := false
 			for _, k := range p.Patterns {
 				pats = append(pats, mk(k))
@@ -388,9 +391,9 @@ func (sc *c20Scenario) runPure(s *simrt.Sim, h *Hist) {
 				}
 			}
 			if p.Otherwise {
-				pats = append(pats, mk(5))
+				pats = append(pats, mk(9))
 				if want < 0 && !undecided {
-					want = 5
+					want = 9
 				}
 			}
 			if undecided {
